@@ -201,16 +201,20 @@ type desc struct {
 type runner struct {
 	c    *reg.Ctx
 	seen map[string]bool
+	dead bool // a parse did not return: its goroutine still spins, stop generating
 }
 
 func (rn *runner) emit(stream, s string) {
-	if rn.seen[s] {
+	if rn.seen[s] || rn.dead {
 		return
 	}
 	rn.seen[s] = true
 	c := rn.c
 	tree, errs, bad := SafeParse(s)
 	if bad != "" {
+		if strings.HasPrefix(bad, "timeout") {
+			rn.dead = true
+		}
 		c.Count("crash")
 		c.Emit(reg.Case{Desc: desc{Src: s, Stream: stream}, Key: fmt.Sprintf("%q", s), Nontrivial: true,
 			Class: "crash", Direct: bad})
